@@ -123,6 +123,38 @@ def render(classify, strategies, names):
     return "\n".join(L)
 
 
+def probe_names():
+    """character-level behaviour of the file-name escaping, read off the running code: `_escape_key` on every single
+    character 0..255 (+ a few beyond Latin-1), `unquote` (as imported by storage_filesystem) on every %XX below 0x80 in both
+    hex cases and on malformed escapes"""
+    import twosigma.memento.storage_filesystem as sf
+    esc = []
+    for cp in list(range(0, 256)) + [0x3b1, 0x20ac, 0x1f600]:
+        esc.append((cp, [ord(c) for c in sf._FilesystemDataSource._escape_key(None, chr(cp))]))
+    unq = []
+    for xx in range(0, 128):
+        for fmt in ("%%%02X", "%%%02x"):
+            t = fmt % xx
+            unq.append(([ord(c) for c in t], [ord(c) for c in sf.unquote(t)]))
+    for t in ("%", "%4", "%G1", "%1G", "a%3Ab", "%%3A", "%3A%3a", "x%", "%3", "%253A"):
+        unq.append(([ord(c) for c in t], [ord(c) for c in sf.unquote(t)]))
+    return esc, unq
+
+
+def render_names(esc, unq):
+    nat_list = lambda l: "[" + ", ".join(str(x) for x in l) + "]"
+    L = ["/-! GENERATED by harness/gen_tables.py from the working tree of twosigma/memento — do not edit. -/",
+         "namespace Memento.Generated", "",
+         "/-- `_FilesystemDataSource._escape_key` on every single character (code point, code points of the result) -/",
+         "def escTable : List (Nat × List Nat) := ["]
+    L += ["  (%d, %s)%s" % (c, nat_list(r), "," if i + 1 < len(esc) else "") for i, (c, r) in enumerate(esc)]
+    L += ["]", "", "/-- `unquote` as storage_filesystem imports it (input code points, output code points) -/",
+          "def unqTable : List (List Nat × List Nat) := ["]
+    L += ["  (%s, %s)%s" % (nat_list(a), nat_list(b), "," if i + 1 < len(unq) else "") for i, (a, b) in enumerate(unq)]
+    L += ["]", "", "end Memento.Generated", ""]
+    return "\n".join(L)
+
+
 def write_if_changed(path, text):
     if os.path.exists(path) and open(path).read() == text:
         return False
@@ -138,14 +170,18 @@ def generate_and_build():
     import subprocess
     classify, strategies, names = probe()
     wire, hasher = probe_args()
+    esc, unq = probe_names()
     lock = common._lake_lock()
     try:
         write_if_changed(os.path.join(GEN, "ResultTypes.lean"), render(classify, strategies, names))
         write_if_changed(os.path.join(GEN, "ArgTypes.lean"), render_args(wire, hasher))
         write_if_changed(os.path.join(GEN, "C02Tables.lean"), open(TEMPLATE).read())
         write_if_changed(os.path.join(GEN, "C11Tables.lean"), open(TEMPLATE.replace("C02Tables", "C11Tables")).read())
+        write_if_changed(os.path.join(GEN, "NameTables.lean"), render_names(esc, unq))
+        write_if_changed(os.path.join(GEN, "C12Tables.lean"), open(TEMPLATE.replace("C02Tables", "C12Tables")).read())
         p = subprocess.run(["lake", "build", "Generated"], cwd=common.LEAN, stdout=subprocess.PIPE, stderr=subprocess.STDOUT, text=True, timeout=1800)
-        return p.returncode == 0, p.stdout[-3000:], dict(classify=classify, strategies=strategies, names=names, arg_wire=wire, arg_hashed=hasher)
+        return p.returncode == 0, p.stdout[-3000:], dict(classify=classify, strategies=strategies, names=names, arg_wire=wire, arg_hashed=hasher,
+                                                      escape_entries=len(esc), unquote_entries=len(unq))
     finally:
         lock.close()
 
@@ -190,7 +226,7 @@ def attach(chk, which):
     chk.obligations += n
     ok, log, table = generate_and_build()
     names, bad = audit_generated(which) if ok else ([], [])
-    chk.extra["generated_tables"] = dict(template=which, theorems=n, built=ok, entries={k: len(v) for k, v in table.items()})
+    chk.extra["generated_tables"] = dict(template=which, theorems=n, built=ok, entries={k: (v if isinstance(v, int) else len(v)) for k, v in table.items()})
     if not ok or bad:
         chk.broken_obligation("theorems over the tables regenerated from the code (%s) no longer check" % which,
                               {"log_tail": log[-1500:], "problems": bad, "tables": table})
